@@ -69,6 +69,23 @@ pub fn build_x(sizes: &[usize], bad: &[usize], data: bool, names: bool, dead_las
 
 pub fn inputs(tier: Tier) -> Vec<PCase> {
     let mut v = vec![];
+    // bulk-memory instructions that only dead code holds (directly after a return, and inside a
+    // construct that starts after it); no passive segment, so whether a data-count section is
+    // needed is decided by scanning the function bodies
+    for (k, src) in [
+        r#"(module (memory 1) (data (i32.const 0) "a") (func (export "f") (i32.const 6100) (drop) (return) (block (data.drop 0))) (func (export "g") (i32.const 6101) (drop)))"#,
+        r#"(module (memory 1) (data (i32.const 0) "a") (func (export "f") (i32.const 6102) (drop) (return) (data.drop 0)) (func (export "g") (i32.const 6103) (drop)))"#,
+        r#"(module (memory 1) (data (i32.const 0) "a") (func (export "f") (i32.const 6104) (drop) (unreachable) (loop (memory.init 0 (i32.const 0) (i32.const 0) (i32.const 0)))) (func (export "g") (i32.const 6105) (drop)) (func (export "h") (i32.const 6106) (drop)))"#,
+    ]
+    .iter()
+    .enumerate()
+    {
+        if let Ok(wasm) = wgen::stateful::assemble(src) {
+            for gc in [false, true] {
+                v.push(PCase { name: format!("data op only in dead code #{} gc={}", k, gc), wasm: wasm.clone(), preserve_ct: false, n_funcs: 2, gc });
+            }
+        }
+    }
     let maxn = if tier == Tier::Quick { 4 } else { 6 };
     for n in 1..=maxn {
         // equal sizes, increasing, decreasing (the size sort permutes), one tie
